@@ -66,7 +66,7 @@ def nontrivial(case):
     return json.dumps(ops) if "".join(kinds).find("qmq") >= 0 or "".join(kinds).find("mq") >= 0 else None
 
 
-QUERIES = ("occ", "state", "find_pos", "find_shape", "light", "polygon", "distance")
+QUERIES = ("occ", "state", "find_pos", "find_shape", "light", "polygon", "distance", "occ2", "state2")
 
 
 # ---- gamma ---------------------------------------------------------------------------------------------
@@ -181,6 +181,16 @@ def twin(sc, ob, light):
     return ob2, net2, cyc2
 
 
+def _sibling(ob):
+    from commonroad.prediction.prediction import TrajectoryPrediction
+    from commonroad.scenario.obstacle import DynamicObstacle, ObstacleType
+    from commonroad.scenario.trajectory import Trajectory
+    from crv import gamma as G
+    tr = ob.prediction.trajectory
+    return DynamicObstacle(12, ObstacleType.CAR, G.rect(2.0, 1.0), G.init_state(0.0, 0.0, 0.0, t=0),
+                           TrajectoryPrediction(Trajectory(tr.initial_time_step, tr.state_list), G.rect(2.0, 1.0)))
+
+
 def _occ_key(occ):
     if occ is None:
         return []
@@ -194,9 +204,9 @@ def query(op, arg, sc, ob, light, net=None, cyc=None):
     from commonroad.geometry.shape import Rectangle
     net = net if net is not None else sc.lanelet_network
     cyc = cyc if cyc is not None else light
-    if op == "occ":
+    if op in ("occ", "occ2"):
         return _occ_key(ob.occupancy_at_time(arg[0]))
-    if op == "state":
+    if op in ("state", "state2"):
         s = ob.state_at_time(arg[0])
         return [] if s is None else _pose(s)
     if op == "find_pos":
@@ -339,13 +349,22 @@ def execute(case):
     ev = []
     init = primary(sc, ob, light)
     warmed = set()
+    # a sibling obstacle built from the SAME state-list object as ob's trajectory (kept outside the scenario, never
+    # mutated itself); its occupancy cache is filled now and asked again after every mutation of ob
+    sib = _sibling(ob)
+    for t in (1, 2):
+        sib.occupancy_at_time(t)
+    ops = list(ops)
+    ops = [b for a in ops for b in ([a] if a["op"] in QUERIES else
+                                    [a, {"op": "occ2", "lvl": "", "arg": [1]}, {"op": "state2", "lvl": "", "arg": [2]}])]
     for a in ops:
         op = a["op"]
         if op in QUERIES:
             exc, res, fresh = "None", [], 1
             try:
-                res = query(op, a["arg"], sc, ob, light)
-                ob2, net2, cyc2 = twin(sc, ob, light)
+                target = sib if op.endswith("2") else ob
+                res = query(op, a["arg"], sc, target, light)
+                ob2, net2, cyc2 = twin(sc, target, light)
                 fresh = 1 if res == query(op, a["arg"], sc, ob2, light, net2, cyc2) else 0
             except tlc.MachineryError:
                 raise
